@@ -103,6 +103,16 @@ def gen(ctx, n):
             ctx.add('sd.de', ty, 'binstrict', bincode_of(ty, short).hex(), expect=['err'], cls='reject:short')
             ctx.add('sd.de', ty, 'binstrict', bincode_of(ty, long_).hex(), expect=['err'], cls='reject:long')
             ctx.add('sd.de', ty, 'bin', bincode_of(ty, short).hex(), expect=['err'], cls='reject:short')
+            # every other plausible length (half / double size, keypair-sized, empty ...), not only size +- 1
+            for ln in (0, 1, 16, sz // 2, sz - 2, sz + 2, 2 * sz - 1, 2 * sz, 2 * sz + 1, 96, 128):
+                if ln == sz:
+                    continue
+                blob = (good * 5)[:ln]
+                cl = 'reject:short' if ln < sz else 'reject:long'
+                ctx.add('sd.de', ty, 'json', json_of(blob).hex(), expect=['err'], cls=cl)
+                ctx.add('sd.de', ty, 'binstrict', hx(bincode_of(ty, blob)), expect=['err'], cls=cl)
+                if ty in BYTES_STYLE or ln < sz:
+                    ctx.add('sd.de', ty, 'bin', hx(bincode_of(ty, blob)), expect=['err'], cls=cl)
             if ty in BYTES_STYLE:
                 ctx.add('sd.de', ty, 'bin', bincode_of(ty, long_).hex(), expect=['err'], cls='reject:long')
                 # prefix says 32 but fewer bytes follow
